@@ -103,6 +103,19 @@ theorem non_nestable_root_emits_outer (A : CAtoms) (abs absSet : String → Stri
     textOutput A abs absSet false false ids top = some (outerHTML r) := by
   simp [textOutput, h, hn]
 
+/-- **C07.** The climbing loop never wraps an element that is kept by a pair of tags, whatever
+display its inline style claims: such a root is returned as it is, so (by
+`nestable_root_emits_inner`) only its inner HTML is emitted and the element is not duplicated. -/
+theorem climb_stops_at_nestable (A : CAtoms) (root : Node) (anc : List Shell) (h : nestableTag root.tag = true) :
+    climb A root anc = root := by
+  cases anc with
+  | nil => rfl
+  | cons s rest =>
+    unfold climb
+    split
+    · rfl
+    · simp [h]
+
 /-- **C15.** a Text carrying the TITLE label renders as nothing in both views -/
 theorem title_text_renders_empty (A : CAtoms) (abs absSet : String → String) (textOnly : Bool) (ids : List Nat) (top : Node) :
     textOutput A abs absSet true textOnly ids top = some [] := by
